@@ -80,6 +80,9 @@ type pairCase struct {
 	Name string `json:"name"`
 	A    string `json:"a"`
 	B    string `json:"b"`
+	// Key: the root-cause key reported when the pair differs (default
+	// "regression: <name>").
+	Key string `json:"key,omitempty"`
 }
 
 func pairCheck(c pairCase, info *vlib.Info) *vlib.Failure {
@@ -88,6 +91,9 @@ func pairCheck(c pairCase, info *vlib.Info) *vlib.Failure {
 	ra, rb := vlib.Run(vlib.Single(c.A)), vlib.Run(vlib.Single(c.B))
 	if f := sameOutcome("regression "+c.Name, c.A, c.B, ra, rb); f != nil {
 		f.Key = "regression: " + c.Name
+		if c.Key != "" {
+			f.Key = c.Key
+		}
 		return f
 	}
 	return nil
@@ -104,9 +110,28 @@ func runPairRegression(h *vlib.H, cases []pairCase) {
 }
 
 var c07Pairs = []pairCase{
-	{"F22-enum-of-pasted-macro-order",
-		"JSIGHT 0.3\nENUM @e2\n[2]\nMACRO @m\n(\n  ENUM @e1\n  [1]\n)\nPASTE @m\n",
-		"JSIGHT 0.3\nENUM @e2\n[2]\nENUM @e1\n[1]\n"},
+	{Name: "F22-enum-of-pasted-macro-order",
+		A: "JSIGHT 0.3\nENUM @e2\n[2]\nMACRO @m\n(\n  ENUM @e1\n  [1]\n)\nPASTE @m\n",
+		B: "JSIGHT 0.3\nENUM @e2\n[2]\nENUM @e1\n[1]\n"},
+}
+
+// keyF42: the text between a schema body and the next directive is read by the
+// schema library, whose comment rules differ from the scanner's.
+const keyF42 = "hash-comment-after-body-read-by-schema-library"
+
+var c05Pairs = []pairCase{
+	{Name: "F42-bare-hash-after-body-swallows-next-line", Key: keyF42,
+		A: "JSIGHT 0.3\nURL /p/{a}\n  Path\n    {\n      \"a\": \"s\"\n    }\n  GET\n",
+		B: "JSIGHT 0.3\nURL /p/{a}\n  Path\n    {\n      \"a\": \"s\"\n    }\n  #\n  GET\n"},
+	{Name: "F42-double-hash-after-body-rejected", Key: keyF42,
+		A: "JSIGHT 0.3\nURL /p/{a}\n  Path\n    {\n      \"a\": \"s\"\n    }\n  GET\n",
+		B: "JSIGHT 0.3\nURL /p/{a}\n  Path\n    {\n      \"a\": \"s\"\n    }\n  ## x\n  GET\n"},
+	{Name: "hash-comment-with-text-after-body", // must keep working
+		A: "JSIGHT 0.3\nURL /p/{a}\n  Path\n    {\n      \"a\": \"s\"\n    }\n  GET\n",
+		B: "JSIGHT 0.3\nURL /p/{a}\n  Path\n    {\n      \"a\": \"s\"\n    }\n  # x\n  GET\n"},
+	{Name: "bare-and-double-hash-between-body-less-directives",
+		A: "JSIGHT 0.3\nGET /a\n  200 any\nGET /b\n  200 any\n",
+		B: "JSIGHT 0.3\n#\n##\nGET /a\n  ##\n  200 any #\n## x\n#\nGET /b ##\n  200 any\n##\n"},
 }
 
 var c09Regression = []regCase{
